@@ -1521,7 +1521,7 @@ func main() {
 		"memo counts: an argument list is new when its instance is outside the closure (type arguments at any depth, declaration bodies) of every reference evaluated before; "+
 		"corpus/C35 (exact inputs of findings) first; an evaluation is non-trivial when the instance compiled and its driver returned a non-empty string; distinct by (canonical instance, scope, value seed)")
 	h := &harness{a: a, rep: rep, cat: catalogue()}
-	h.wd = vh.NewWatchdog(rep, 120*time.Second)
+	h.wd = vh.NewWatchdog(rep, 180*time.Second)
 	h.wd.Beat("start")
 	h.cw = vh.NewCases(a, "From Coq Require Import List NArith ZArith.\nFrom Verif Require Import C35.Model.\nImport ListNotations.\nOpen Scope Z_scope.", "case", "mismatches", 6)
 
